@@ -23,15 +23,15 @@ INFO = {
  "C11": ("model_checking", "for every rejected input the errors.Is vector over the eleven exported sentinels is recorded; TLC requires exactly one match, that it names a defect in Vector!Defects(input), which forces the kind when only one is present.", "7 C11, Appendix A"),
  "C14": ("model_checking", "for every accepted temporal/environmental input the BaseMetrics()/TemporalMetrics() views (score, severity, encoding) are compared with an independent lower-level decode of Vector!Project(input) (TLC recomputes the projection).", "7 C14"),
  "C17": ("model_checking", "Report!ExpectedReport gives the value of every exported field (own level, embedded reports, shadowed unqualified names) from the object's observations and the display-name functions; all 5,184 base reports and seeded temporal/environmental reports in six languages validated field by field by TLC.", "7 C17"),
- "C18": ("model_checking", "complete display-name table (52 functions x enumeration integers -2..8 x 10 language tags) validated by TLC against the relational specification.", "7 C18"),
+ "C18": ("model_checking", "complete display-name table (52 functions x enumeration integers -2..8, the integers congruent to a defined value modulo 2^8 / 2^16 / 2^32 and the extreme ones x 26 language tags, read before and after all other tags were used) validated by TLC against the relational specification.", "7 C18"),
  "C12": ("exploration", "Objects.tla defines validity of an object state; MC_Objects enumerates the receiver states (6 kinds x constructor/nil x 14 decode inputs x field and version resets, with lemmas on the abstract machine); every state is materialised on the real types and every query is applied through every accessor, each step validated by TLC (no panic, object xor error, error and score 0 on invalid receivers). Arbitrary input bytes are sampled (random, TLC-explored edits, degenerate, 1-8 MiB) through constructor and nil receivers.", "7 C12, Appendix B"),
- "C15": ("model_checking", "each query is validated by TLC as a stuttering step of the Objects machine: the recorded snapshots of all live objects (exported fields + unexported names maps) and the digest of the package-level tables are UNCHANGED, repeated calls agree, and the result equals that of a freshly decoded twin; thousands of vectors with near-duplicates are decoded in three processing orders with report construction interleaved and must give identical results.", "7 C15"),
+ "C15": ("model_checking", "each query is validated by TLC as a stuttering step of the Objects machine: the recorded snapshots of all live objects (exported fields + unexported names maps) and the digest of the package-level tables are UNCHANGED, repeated calls agree, and the result equals that of a freshly decoded twin; every history is replayed with queries injected before each operation (also before the first Decode) and must give the results of the plain run; thousands of vectors with near-duplicates are decoded in three processing orders with report construction in four languages interleaved and must give identical results, including the report built without options.", "7 C15"),
  "C16": ("exploration", "Concurrent.tla: every interleaving of the pure design is race free with sequential results and each of six deliberate deviations (lazy table, memoised score, shared names set, shared scratch buffer, last-template cache, buffer pool with a double put) is caught by TLC (non-vacuity). Conformance: all 70 TLC-generated interleavings of the gated decodeOne steps of two goroutines replayed deterministically through the build-tag hook, plus free-running stress on 16-128 goroutines, all under the Go race detector; every result validated by TLC against the sequential reference.", "7 C16"),
  "C19": ("model_checking", "Template.tla specifies rendering for a template mini-language (41 segment kinds); MC_Template enumerates all templates of <=2 (quick) / <=3 (thorough) segments with compositionality lemmas; every template is exported from reports of all levels via string, chunked readers, failing readers, nil readers and nil reports; TLC validates output / clean failure against Template!Render and, for all templates incl. 40+ outside the grammar, against Go's text/template run on the same report.", "7 C19"),
 }
 NOTE = {
  "C12": "exploration level: 'any bytes, any length' is sampled; the state a failed Decode leaves in its receiver is unspecified (queries must not panic; the invalid-object rule applies if it shows an unknown value)",
- "C15": "observable state = exported fields + names maps (reflection) + digest of the package-level tables through the public API; histories are bounded to MC_Objects' prefixes followed by the full query battery",
+ "C15": "observable state = exported fields + the bookkeeping of recorded metric names (found by shape through reflection; when a refactoring keeps it in another shape the exported fields stand in) + digest of the package-level tables through the public API; histories are bounded to MC_Objects' prefixes followed by the full query battery",
  "C16": "exploration level: data-race freedom itself is sensed by the Go race detector during trace recording, not derived from the TLA+ model; schedules beyond 4 gated steps per goroutine are not enumerated",
  "C19": "templates outside the grammar are judged against text/template as an environment function, as the property words it; Template!Render must agree with text/template on the grammar or the run is an infrastructure error",
  "C07": "trusted: injective ASCII escaping of input bytes; Appendix A's defect relation (validated on 1.26M prototype checks, and as lemmas in MC_Lang)",
@@ -41,7 +41,7 @@ NOTE = {
  "C11": "where several kinds of defect are present any of them may be reported (the property leaves this open)",
  "C14": "trusted: harness token filter for the projection is re-computed and compared by TLC (Vector!Project)",
  "C17": "expected names come from the names package for the like-named metric (C18 covers the table); a field wired to a neighbour with an equal value is invisible on that vector (vectors are drawn with differing neighbours)",
- "C18": "regional variants of en/ja are unspecified and not probed",
+ "C18": "regional variants of en/ja are unspecified: they are used as a prologue (they must not change what other tags get) but their own names are not judged",
  "C01": "trusted: harness binding of exported constants to spec codes (cross-checked by C20 'defs' events), float projection (tenth, exactness, printed form); token orders beyond canonical/reversed are seeded samples",
  "C02": "trusted: as C01; the base score inside the temporal equation is the specification's (MC_V3Base table), so a wrong base score also surfaces here",
  "C03": "trusted: harness-side composition of TLC-emitted tables for the part of the concrete product TLC does not see event by event (cross-checked by TLC on the raw subset and on every disagreement)",
